@@ -133,7 +133,7 @@ pub fn execute(check: &str, plan: Plan, want_log: bool) -> RunResult {
     add("nack", facts.nacks);
     add("delete_subscription", facts.deletes_sub);
     add("delete_topic", facts.deletes_topic);
-    add("mailbox_full", probes.get("mailbox_full_at_send").cloned().unwrap_or(0) + probes.get("post_blocked_on_full_mailbox").cloned().unwrap_or(0));
+    add("mailbox_full", probes.get("mailbox_full_at_send").cloned().unwrap_or(0) + probes.get("post_blocked_on_full_mailbox").cloned().unwrap_or(0) + probes.get("topic_mailbox_full_at_send").cloned().unwrap_or(0));
     add("lease_expiry", probes.get("expiry_batch_1").cloned().unwrap_or(0) + probes.get("expiry_batch_gt1").cloned().unwrap_or(0));
     add("rejected_request", facts.invalid_argument);
     let cancels = events.iter().filter(|e| matches!(e.ev, Ev::CancelBg { .. })).count() as u64;
